@@ -6,6 +6,7 @@ CONSTANTS
   Rets <- RetsTwo
   Advs <- AdvsExact
   Decs <- DecsAll
+  BFaults <- BFaultsNone
   Ras <- RasNone
   Modes = {"call", "exec"}
   NRuns = 1
